@@ -121,3 +121,11 @@ _t("C20",
    "harness ledger decides 'counted once', and the model backend's call log decides 're-offered after every resynchronisation, parents first', including refusal on re-broadcast.",
    "Trusted: internal/simchain programmable answers and call log; harness coin ledger.",
    "property-based testing: generated histories with fault-injected backend answers, snapshot/ledger/call-log oracles", "DESIGN.md §3 C20")
+
+_t("C09",
+   "Generated concurrent call scripts against a complete wallet, with the database proxy holding commit handlers exactly in the window the property names; only outcomes are judged "
+   "(distinct addresses, gap-free index ranges, database equals memory). Complemented by ungated runs under the race detector. Schedules are sampled and the named hazard is constructed; "
+   "no enumeration of interleavings.",
+   "Trusted: internal/proxydb gating (a delay inside OnCommit handlers), the Go race detector for the second unit.",
+   "property-based testing: generated schedules with harness-owned gating of commit handlers", "DESIGN.md §3 C09")
+NOT_APPLICABLE[:] = []
